@@ -22,7 +22,7 @@ import time
 VERIF = os.path.dirname(os.path.dirname(os.path.abspath(__file__)))
 LEAN = os.path.join(VERIF, "lean")
 BIN = os.path.join(VERIF, "bin")
-REPO = "/repo"
+REPO = os.environ.get("VERIF_REPO", "/repo")  # override only for evaluating seeded changes in a scratch worktree
 ALLOWED_AXIOMS = {"propext", "Classical.choice", "Quot.sound"}
 FORBIDDEN = re.compile(r"\bsorry\b|\badmit\b|^\s*axiom\s|native_decide|bv_decide|implemented_by|\bunsafe\s|maxHeartbeats\s+0", re.M)
 
@@ -104,7 +104,11 @@ def theorem_names(prop):
             if m and stack:
                 stack.pop()
                 continue
-            m = re.match(r"^\s*(?:@\[[^\]]*\]\s*)?(?:private\s+|protected\s+)?theorem\s+([A-Za-z0-9_'.]+)", line)
+            m = re.match(r"^\s*(?:@\[[^\]]*\]\s*)?(private\s+|protected\s+)?theorem\s+([A-Za-z0-9_'.]+)", line)
+            if m and (m.group(1) or "").strip() == "private":
+                continue  # private names are mangled and cannot be named from the audit file; their axioms show up in their users
+            if m:
+                m = re.match(r"^\s*(?:@\[[^\]]*\]\s*)?(?:protected\s+)?theorem\s+([A-Za-z0-9_'.]+)", line)
             if m:
                 ns = ".".join(n for k, n in stack if k == "namespace" and n)
                 nm = m.group(1)
@@ -202,11 +206,27 @@ def lean_stage(prop, tier):
 
 def build_harness():
     hdir = os.path.join(VERIF, "harness")
+    tmp = None
+    if REPO != "/repo":
+        # scratch evaluation: same harness sources, module replaced by the scratch tree
+        import tempfile
+        tmp = tempfile.mkdtemp(prefix="verif-harness-")
+        for f in os.listdir(hdir):
+            src = os.path.join(hdir, f)
+            if os.path.isdir(src):
+                shutil.copytree(src, os.path.join(tmp, f))
+            else:
+                shutil.copy(src, tmp)
+        gm = open(os.path.join(tmp, "go.mod")).read().replace("=> /repo", "=> " + REPO)
+        open(os.path.join(tmp, "go.mod"), "w").write(gm)
+        hdir = tmp
     shutil.copyfile(os.path.join(REPO, "go.sum"), os.path.join(hdir, "go.sum"))
     out_bin = os.path.join(BIN, "harness.%d" % os.getpid())
     if os.path.exists(out_bin):
         os.remove(out_bin)
     rc, out, dt = run(["go", "build", "-tags", "verif", "-o", out_bin, "."], cwd=hdir, env=GOENV, timeout=600)
+    if tmp:
+        shutil.rmtree(tmp, ignore_errors=True)
     return rc, out, out_bin
 
 
@@ -302,16 +322,21 @@ def main():
         broken = (not lean["ok"]) or any(f["kind"] == "differ" for f in failures) or crashed
         search_note = None
         if broken and not concrete and not replay:
-            search_note = "search: re-running suites with 8x cases on 3 further seeds"
+            # bounded search (DESIGN 3.6): further seeds with more cases, at most ~4 minutes in total
+            search_note = "search: re-running suites with 4x cases on 2 further seeds (time-boxed)"
             log(search_note)
-            for k in range(3):
+            t_search = time.time()
+            for k in range(2):
                 for s in suites:
-                    rc, out, cov, dt = run_suite(hbin, s, seed * 7919 + 104729 * (k + 1), tier, scale=8, timeout=900)
+                    left = 240 - (time.time() - t_search)
+                    if left < 20:
+                        break
+                    rc, out, cov, dt = run_suite(hbin, s, seed * 7919 + 104729 * (k + 1), tier, scale=4, timeout=min(150, left))
                     if cov is None:
                         continue
                     for f in cov.get("failures", []):
                         f["suite"] = s
-                        f["found_by"] = "search seed=%d scale=8" % (seed * 7919 + 104729 * (k + 1))
+                        f["found_by"] = "search seed=%d scale=4" % (seed * 7919 + 104729 * (k + 1))
                         if f["kind"] in ("violated", "crash"):
                             concrete.append(f)
                             failures.append(f)
